@@ -85,6 +85,9 @@ type Plan struct {
 	// SlowClose: closing an upload source takes 15 ms (a file on a network share): the order in which the client closes
 	// the files and ends the body then shows at the moment Submit returns. (r9)
 	SlowClose bool `json:"slow_close,omitempty"`
+	// Scheme: the transport's only scheme ("" = http). The scripted round tripper answers any scheme, so "ws" and "HTTP"
+	// are calls like any other: what is handed over is released all the same (r10)
+	Scheme string `json:"scheme,omitempty"`
 }
 
 type quietLogger struct{}
@@ -353,7 +356,11 @@ func Check(p Plan) *kit.Violation {
 	)
 	var callerCancel context.CancelFunc = func() {}
 
-	r := client.New("example.test", "/", []string{"http"})
+	scheme := "http"
+	if p.Scheme != "" {
+		scheme = p.Scheme
+	}
+	r := client.New("example.test", "/", []string{scheme})
 	if p.MissingProd {
 		delete(r.Producers, rt.JSONMime)
 	}
@@ -771,7 +778,10 @@ func Check(p Plan) *kit.Violation {
 	if len(why) == 0 && readerRan && p.Reader == "readall" && out.err == nil && body != nil && readerGot != len(body.data) {
 		return kit.Failf("TRUNCATED: the reader got %d of %d response bytes without an error", readerGot, len(body.data))
 	}
-	if len(why) == 0 && out.err != nil && dl == 0 && !dumpMayFail {
+	// a plan that goes through net/http's own transport is refused there for a scheme that is not http(s): an admissible
+	// failure, and what was handed over is accounted for like after any other (r10)
+	schemeRefused := p.Scheme != "" && out.err != nil && strings.Contains(out.err.Error(), "unsupported protocol scheme")
+	if len(why) == 0 && out.err != nil && dl == 0 && !dumpMayFail && !schemeRefused {
 		return kit.Failf("SPURIOUS-ERROR: no fault in the plan and no deadline, yet Submit failed: %v", out.err)
 	}
 	return nil
@@ -869,6 +879,8 @@ func Gen(t *rapid.T) Plan {
 			}
 		}
 	}
+	// drawn last, so that the plans of earlier harness versions stay what they were at a given seed
+	p.Scheme = rapid.SampledFrom([]string{"", "", "", "", "", "ws", "wss", "HTTP", "https"}).Draw(t, "scheme")
 	return p
 }
 
@@ -995,6 +1007,7 @@ func Classify(p Plan) (bool, []string) {
 	add(p.MissingProd, "missing producer")
 	add(p.BadHeader, "header value that cannot be sent")
 	add(p.SlowClose && p.NFiles > 0, "upload sources that take time to close")
+	add(p.Scheme != "" && p.Scheme != "https", "a transport scheme other than http/https")
 	add(p.BadHeader && p.Debug && p.streaming(), "debug mode, streamed payload, request that cannot be dumped")
 	if p.Debug {
 		labels = append(labels, "debug mode")
